@@ -120,6 +120,26 @@ def r3_own_key_trusted_by_default(cx):
                 else:
                     break
             acc |= seeds
+    # the list may arrive through `?` from a (spliced) helper: follow Try::branch, Ok(..) wrappers and moves back
+    for acc in (tk_locals, kp_locals):
+        for _ in range(6):
+            grown = False
+            for L in list(acc):
+                for d in defuse(new).defs.get(L, []):
+                    cand = []
+                    if d[0] == "call" and callee_is(d[2], "Try::branch", "ops::Try>::branch") and d[2]["args"]:
+                        cand.append(d[2]["args"][0])
+                    elif d[0] == "stmt" and d[3]["rv"]["k"] == "aggregate" and d[3]["rv"].get("variant") in ("Ok", "Some") and d[3]["rv"]["ops"]:
+                        cand.append(d[3]["rv"]["ops"][0])
+                    elif d[0] == "stmt" and d[3]["rv"]["k"] == "use":
+                        cand.append(d[3]["rv"]["op"])
+                    for o in cand:
+                        r = op_root(new, o) if op_place(o) is not None else None
+                        if r is not None and r["l"] not in acc:
+                            acc.add(r["l"])
+                            grown = True
+            if not grown:
+                break
     cx.check("crypto-ctor-found", bool(tk_locals) and bool(kp_locals), site_of(new), "Crypto::new builds Crypto { key_pair, trusted_keys, .. }")
     pushes = []
     for ci, ct in new.calls():
